@@ -88,12 +88,14 @@ func main() {
 			Seed  uint64              `json:"seed"`
 			Tapes map[string][]uint32 `json:"tapes"`
 			Prel  []uint64            `json:"prelude"`
+			NoRst bool                `json:"noreset"`
 		}
 		b, _ := io.ReadAll(os.Stdin)
 		if err := json.Unmarshal(b, &in); err != nil {
 			fmt.Fprintln(os.Stderr, err)
 			os.Exit(2)
 		}
+		noReset = in.NoRst
 		ro := replayOnce(c, tierOf(os.Args[3]), in.Seed, in.Tapes, in.Prel...)
 		out, _ := json.Marshal(ro)
 		os.Stdout.Write(out)
@@ -113,6 +115,7 @@ func main() {
 			fmt.Fprintln(os.Stderr, "unknown property", rf.Property)
 			os.Exit(2)
 		}
+		noReset = rf.NoReset
 		ro := replayOnce(c, tierOf(rf.Tier), rf.Seed, rf.Tapes, rf.Prelude...)
 		sc, _ := json.MarshalIndent(ro.Scenario, "", " ")
 		fmt.Printf("scenario: %s\n", sc)
